@@ -16,7 +16,7 @@ EXPLANATION = (
     "and precedes the store, the result comes from the local; G4 relax discipline R1/R2/R4 for everything reachable from "
     "glob, handlers catch only resolver errors; G5 '**' de-duplicates by identity (C17 lint on resolver.py); G6 every child is matched against the pattern and every "
     "matching child is recorded or descended into (must-pass-through on the CFG); G7 results of the '**' fan-out are added only "
-    "after an identity duplicate test; G1 (flags) DOTALL is in effect for the compiled pattern on every path, as inline "
+    "after an identity duplicate test; G1f DOTALL is in effect for the compiled pattern on every path, as inline "
     "flag of the translation or in every value the flags argument can take (flag-set dataflow); R5-R12 as for C07. Not decided: "
     "the match set / pre-order of results for concrete trees."
 )
@@ -35,6 +35,7 @@ def run(ctx):
     funcs = R.reachable_from(ctx.p, typer, ["glob"])
     for f in funcs:
         ctx.touch(f)
+    R.rule_G1b_dotall(ctx, typer)  # flags first: a dataflow fact of its own, independent of how the translation is written
     R.rule_G1(ctx, typer)
     R.rule_G2_G3(ctx, typer)
     R.rule_R1(ctx, typer, funcs)
@@ -56,7 +57,6 @@ def run(ctx):
     R.rule_G6_no_extra_pruning(ctx, typer)
     R.rule_G7_fanout_dedup(ctx, typer)
     ctx.floor("G7", 1)
-    R.rule_G1b_dotall(ctx, typer)
     ctx.floor("G6", 1)
     ctx.floor("G1", 5)
     ctx.floor("G2", 2)
